@@ -41,6 +41,8 @@ type Ctx struct {
 	usedContracts map[string]bool
 	closureTab map[string]*Closure
 	interior map[string]Loc
+	wfCache map[string]*Term
+	pendingWF []*tableSpec
 	defOf map[string]*Term
 
 	fnName string
